@@ -53,20 +53,21 @@ def check(rng, deep):
                 # small / coarse asset grids on which patient high-income households want to save beyond the top grid point
                 ('sim', m.sim, dict(m.SIM_CALIB, max_a=5.0, n_a=12, beta=0.978, r=0.02), 'r', ['r', 'w']),
                 ('labor', m.labor, dict(m.LAB_CALIB, amax=4.0, nA=12, beta=0.982), 'r', ['r', 'w']),
-                ('sim', m.sim_shipped, m.SIM_SHIPPED_CALIB, 'r', ['r', 'w'])]          # the shipped hh_extended with its own make_grids / income and example calibration (smaller grids)
+                ('sim', m.sim_shipped, m.SIM_SHIPPED_CALIB, 'r', ['r', 'w']),
+                ('twoasset', m.twoasset, dict(m.TWO_CALIB, chi2=2.0 + float(nr.uniform(0.15, 0.6)), chi0=0.4), 'rb', ['rb', 'ra', 'tax', 'w'])]          # adjustment-cost curvature other than the quadratic special case; before it: the shipped hh_extended with its own make_grids / income and example calibration (smaller grids)
     if deep:       # calibrations in a box around the first three fixtures (levels and paths only)
         for name, blk, calib, rname, inputs in list(fixtures[:3]):
             for _ in range(2):
                 fixtures.append((name, blk, H.perturb(calib, rng), rname, inputs))
     for fi, (name, blk, calib, rname, inputs) in enumerate(fixtures):
-        if fi >= 6:
+        if fi >= 7:
             try:
                 blk.steady_state(calib)
             except ValueError:
                 continue              # no convergence at this calibration: a documented raise
         ss = blk.steady_state(calib)
         d = H.full_dict(blk, ss)
-        inp = dict(kind='budget', block=name, grid='standard' if fi < 3 else ('small' if fi < 5 else ('shipped-extended' if fi == 5 else 'perturbed')), calibration={k: v for k, v in calib.items() if isinstance(v, (int, float))})
+        inp = dict(kind='budget', block=name, grid='standard' if fi < 3 else ('small' if fi < 5 else ('shipped-extended' if fi == 5 else ('non-quadratic-adjustment-cost' if fi == 6 else 'perturbed'))), calibration={k: v for k, v in calib.items() if isinstance(v, (int, float))})
         n += 1
         top_mass = float(np.sum(d['D'][..., -1])) if name != 'twoasset' else 0.0
         pw = np.abs(pointwise(name, d)).max()
